@@ -167,6 +167,60 @@ def hash_eq_scan():
     return hits
 
 
+RICH = '''
+P :: blob {
+    x: int,
+    f: fn int -> int,
+}
+E :: enum
+    A int,
+    B int,
+    C,
+end
+g := 0
+count :: fn n: int -> int do
+    total := 0
+    i := 0
+    loop i < n do
+        i += 1
+        if i == 2 do continue end
+        j := 0
+        loop do
+            j += 1
+            if j > i do break end
+            total += i
+        end
+    end
+    ret total
+end
+pick :: fn e: E -> int do
+    ret case e do
+        A x -> x * 2 end
+        B y -> y end
+        else 0 end
+    end
+end
+start :: fn do
+    p := P { x: 1, f: fn a: int -> int do ret a + self.x end }
+    fs := [fn -> int do ret g end, fn -> int do
+        g += 1
+        ret g
+    end]
+    print(count(3))
+    print(pick(E.A 1) + pick(E.B 2) + pick(E.C))
+    print(p.f(2))
+    v := if g > 0 and p.x > 0 or g == 0 do (1, "a") else (2, "b") end
+    print(v)
+    fs -> for_each(fn f: fn -> int do print(f()) end)
+    d := dict.from_list([(1, 2.5)])
+    print(d -> dict.get(1))
+    l := [1, 2] -> map(pu q: int -> int do q * 2 end)
+    print(l == [2, 4])
+    (1 + 1) <=> 2
+end
+'''
+
+
 def history_check(art, tier):
     """sequences of two compilations in one thread vs the second alone"""
     progs = {
@@ -175,6 +229,9 @@ def history_check(art, tier):
         "redefines_print": {"main.sy": "print :: fn a do end\nstart :: fn do\n    print(1)\nend\n"},
         "three_files_err": {"main.sy": "use p\nuse q\nstart :: fn do\n    print(p.v + nope)\nend\n", "p.sy": "v :: 1\n", "q.sy": "w :: 2\n"},
         "type_error": {"main.sy": "start :: fn do\n    x := 1 + \"s\"\nend\n"},
+        # every construct that makes the code generator name something (temporaries, labels, closures, result variables, type ids)
+        "rich": {"main.sy": RICH},
+        "rich_err": {"main.sy": RICH.replace("total += i", "total += i + \"s\"").replace("B y -> y end", "B y -> y + nope end")},
     }
     d = tempfile.mkdtemp(prefix="c16h_", dir=common.SCRATCH); diffs = []; runs = 0
     try:
@@ -188,9 +245,11 @@ def history_check(art, tier):
             if len(parts) < 2: raise common.Inconclusive("replay tool `seq` produced no result: " + out[:200])
             return parts[-1]
         alone = {n: seq(n) for n in names}; runs += len(names)
+        for n in names:
+            # vacuity guard: the programs meant to compile do compile (a rejected program exercises no code generation)
+            if n != "redefines_print" and ("err" in n or "error" in n) == (" OK " in alone[n].split("\n")[0]): raise common.Inconclusive("history program %s: expected %s, got %s" % (n, "an error" if "err" in n else "OK", alone[n][:200]))
         for a in names:
             for b in names:
-                if a == b and tier == "quick": continue
                 after = seq(a, b); runs += 1
                 if after != alone[b]: diffs.append({"a": a, "b": b, "after": after, "alone": alone[b], "files": {"a/" + k: v for k, v in progs[a].items()} | {"b/" + k: v for k, v in progs[b].items()}})
     finally: shutil.rmtree(d, ignore_errors=True)
